@@ -864,6 +864,22 @@ def inputs_only_read(qualname, roots):
             node = parent[node]
         return node
 
+    # local containers that hold (on some path) a reference into an input: `d[k] = parset.pars[q].y_factor` -- writing THROUGH an element
+    # of such a container (`d[k][j] = ...`, `d[k].attr = ...`) writes into the input
+    holds_input = {}
+    for st in ast.walk(fi.node):
+        if isinstance(st, ast.Assign) and len(st.targets) == 1 and isinstance(st.targets[0], ast.Subscript) and isinstance(st.targets[0].value, ast.Name):
+            v = st.value
+            if isinstance(v, (ast.Attribute, ast.Subscript)) and reaches_input(v, st):
+                holds_input.setdefault(st.targets[0].value.id, []).append((st.lineno, ast.unparse(v)))
+
+    def through_held_element(x):
+        """x = name[...]<one or more further steps> with `name` a local container holding input references"""
+        steps, e = 0, x
+        while isinstance(e, (ast.Attribute, ast.Subscript)):
+            e, steps = e.value, steps + 1
+        return e.id if isinstance(e, ast.Name) and e.id in holds_input and steps >= 2 else None
+
     n = 0
     for s in ast.walk(fi.node):
         targets = []
@@ -875,6 +891,12 @@ def inputs_only_read(qualname, roots):
             targets = s.targets
         for t in targets:
             for x in ([t] if not isinstance(t, (ast.Tuple, ast.List)) else t.elts):
+                held = through_held_element(x) if isinstance(x, (ast.Attribute, ast.Subscript)) else None
+                if held is not None:
+                    n += 1
+                    line, src = holds_input[held][0]
+                    out.append(_ob(qualname, "writes-through-input@L%d" % s.lineno, False, s.lineno, "`%s` is assigned at line %d, and `%s` holds `%s` (stored at line %d without a copy): the caller's object is modified" % (ast.unparse(x), s.lineno, held, src, line)))
+                    continue
                 if isinstance(x, (ast.Attribute, ast.Subscript)) and reaches_input(x.value, s):
                     n += 1
                     out.append(_ob(qualname, "writes-through-input@L%d" % s.lineno, False, s.lineno, "`%s` is assigned at line %d and is reached from the input(s) %s: the caller's object is modified" % (ast.unparse(x), s.lineno, sorted(roots))))
